@@ -95,7 +95,7 @@ CONTRACTS = {
     f"{SEL}.endCompetition": {"receivers": [SEL], "inv": True, "params": {}, "modifies": ["self.robot_exit"], "ensures": {"exit requested": "self.robot_exit"}},
     f"{SEL}._on_autonomous_enable": {
         "receivers": [SEL], "inv": True, "params": {}, "raises": True,
-        "requires": {"offered modes are idle (previous period was closed by disable(); run() always does that)": f"forall(m, Ref_{AM}, implies(m is g_choice or exists_mode(self, m), m.g_state == 0))"},
+        "requires": {"offered modes are idle (previous period was closed by disable(); run() always does that)": f"forall(m, Ref_{AM}, implies(m is not None and (m is g_choice or exists_mode(self, m)), m.g_state == 0))"},
         "modifies": ["self.active_mode", "self.g_chosen"] + _ALL_AM,
         "ghost_exit": {"self.g_chosen": "self.active_mode"},
         "ensures": dict({
@@ -133,13 +133,14 @@ CONTRACTS = {
         "ensures": dict({"C14.D1 the active mode receives on_disable() once and there is no active mode afterwards":
                          f"self.active_mode is None and forall(m, Ref_{AM}, (m.g_dis_cnt == old(m.g_dis_cnt) + 1 and m.g_state == 0 if (m is old(self.active_mode) and m is not None) else m.g_dis_cnt == old(m.g_dis_cnt) and m.g_state == old(m.g_state)) and m.g_en_cnt == old(m.g_en_cnt) and m.g_it_cnt == old(m.g_it_cnt))",
                          "serial monotone": "g_seq >= old(g_seq)"}, **_N),
-        "ensures_raise": dict({"delivered": f"forall(m, Ref_{AM}, (m.g_dis_cnt == old(m.g_dis_cnt) + 1 and m.g_state == 0 if m is old(self.active_mode) else m.g_dis_cnt == old(m.g_dis_cnt) and m.g_state == old(m.g_state)) and m.g_en_cnt == old(m.g_en_cnt) and m.g_it_cnt == old(m.g_it_cnt))",
+        "ensures_raise": dict({"only the active mode's on_disable() can raise": "old(self.active_mode) is not None",
+                               "delivered": f"forall(m, Ref_{AM}, (m.g_dis_cnt == old(m.g_dis_cnt) + 1 and m.g_state == 0 if m is old(self.active_mode) else m.g_dis_cnt == old(m.g_dis_cnt) and m.g_state == old(m.g_state)) and m.g_en_cnt == old(m.g_en_cnt) and m.g_it_cnt == old(m.g_it_cnt))",
                                "serial monotone": "g_seq >= old(g_seq)"}, **_R),
         "inv_exclude_raise": ["C14.SI1"],
     },
     f"{SEL}.start": {
         "receivers": [SEL], "inv": True, "inv_on_raise": False, "params": {}, "raises": True,
-        "requires": {"offered modes are idle": f"forall(m, Ref_{AM}, implies(m is g_choice or exists_mode(self, m), m.g_state == 0))"},
+        "requires": {"offered modes are idle": f"forall(m, Ref_{AM}, implies(m is not None and (m is g_choice or exists_mode(self, m)), m.g_state == 0))"},
         "modifies": ["self.active_mode", "self.g_chosen", "self.timer", "wpilib.Timer.g_last[*]"] + _ALL_AM,
         "ensures": {"C14.T1 start() selects and enables the mode (as _on_autonomous_enable) with a fresh timer": "self.active_mode is (self.modes[unwrap(g_dash)] if (g_dash is not None and has(self.modes, unwrap(g_dash))) else g_choice) and self.timer is not None and self.timer.g_last == 0"},
     },
@@ -162,7 +163,7 @@ CONTRACTS = {
                      "iter_fn entries are distinct existing callables whose preconditions hold": "len(iter_fn) >= 0 and forall(a, Int, forall(b, Int, implies(0 <= a and a < len(iter_fn), iter_fn[a] is not None and iterfn_ready(iter_fn[a]) and implies(a < b and b < len(iter_fn), not (iter_fn[a] is iter_fn[b])))))",
                      "handler given (MagicRobot always passes onException)": "on_exception is not None",
                      "watchdog consistent": "implies(watchdog is not None, inv(watchdog))",
-                     "offered modes are idle": f"forall(m, Ref_{AM}, implies(m is g_choice or exists_mode(self, m), m.g_state == 0))"},
+                     "offered modes are idle": f"forall(m, Ref_{AM}, implies(m is not None and (m is g_choice or exists_mode(self, m)), m.g_state == 0))"},
         "ghost_exit": {"self.g_iters": "delay.g_k"},
         "modifies": ["self.active_mode", "self.g_chosen", "self.g_iters", "IterFn.g_cnt[*]", "IterFn.g_last[*]", "wpilib.Timer.g_last[*]", "g_now", "g_ds_enabled", "g_ds_auto", "g_ds_test",
                      "NotifierDelay.delay_period[*]", "NotifierDelay._notifier[*]", "NotifierDelay._expiry_time[*]", "NotifierDelay.g_t0[*]", "NotifierDelay.g_k[*]",
